@@ -446,6 +446,20 @@ fn describe(m: &mut mr::Reader, o: &mut Oracle) -> String {
         parts.push(tl(gl.tune(), Kind::Tune, m, o));
         gls = format!("{}={}", gls, parts.join(","));
     }
+    // the file-backed datafile reader's own iterator forms
+    let via_iter: Vec<Option<Vec<u8>>> = m.reader.data_iter().map(|x| x.ok()).collect();
+    if via_iter.len() != nd {
+        o.fail("C16/data-iter-differs", format!("{} blocks, num_data {}", via_iter.len(), nd));
+    }
+    for (d, x) in via_iter.iter().enumerate() {
+        if *x != m.reader.read_data(d).ok() {
+            o.fail("C16/data-iter-differs", format!("block {}", d));
+        }
+    }
+    let _ = m.reader.debug_dump();
+    if m.reader.items().count() != m.reader.num_items() || m.reader.item_types().count() != m.reader.num_item_types() {
+        o.fail("C16/items-iterator-differs", String::new());
+    }
     let mut h = FNV_OFFSET;
     for d in 0..nd {
         h = fold_res(h, m.string(d));
